@@ -228,6 +228,10 @@ class C17(PropCheck):
                 out.append({"k": "initializing", "alone": True,
                             "mods": [[1, k1 in ("mod", "both"), k1 in ("builtin", "both"), False, False],
                                      [2, k2 == "mod", k2 == "builtin", False, False]]})
+        # the recorded module count must be that of the scan that ran last (two overlapping extractions)
+        for kind in ("mod", "builtin"):
+            out.append({"k": "stale_cache", "mods": [[0, False, False, False, False], [1, False, False, False, False],
+                                                     [2, kind == "mod", kind == "builtin", False, False]]})
         # built-in glue registered for a module that is already loaded (what happens at `import stackscope`)
         for own in (True, False):
             for raises in (False, True):
@@ -313,6 +317,8 @@ class C17(PropCheck):
             return {"log": list(lab.log), "glue_imports": True, "after_first": first, "after_second": second, "error": None}
         if case["k"] == "late_register":
             return self.run_late_register(case)
+        if case["k"] == "stale_cache":
+            return self.run_stale_cache(case)
         # ---- concurrent ----
         mods = case["mods"]
         for m, *_ in mods:
@@ -427,7 +433,63 @@ class C17(PropCheck):
         return real if isinstance(real, str) else json.dumps(real, sort_keys=True)
 
     # ---- the property on the real log ---------------------------------------------------------
+    def run_stale_cache(self, case):
+        """Thread 1's scan is about to record the module count; at that moment a module disappears and thread 2 extracts (it has to
+        wait if thread 1 still holds the lock); thread 1 goes on; then a module with glue arrives and an extraction follows: its glue
+        must have run when that extraction returns.  (The count recorded last must be the one of the scan that ran last.)"""
+        import linecache
+
+        lab = self.lab
+        has_mod = case["mods"][2][1]
+        lab.insert(0)
+        lab.insert(1)
+        code = lab.gl.add_glue_as_needed.__code__
+        state = {"armed": True, "t2_done": False}
+
+        def thread2():
+            lab.remove(1)
+            lab.extract()
+            state["t2_done"] = True
+
+        def local(frame, event, arg):
+            if event == "line" and state["armed"]:
+                if "_sys_modules_len_cache[0] =" in linecache.getline(code.co_filename, frame.f_lineno):
+                    state["armed"] = False
+                    t2 = threading.Thread(target=thread2, daemon=True)
+                    state["t2"] = t2
+                    t2.start()
+                    t2.join(0.7)          # (if this thread still holds the lock, thread 2 cannot finish: go on, it will follow)
+            return local
+
+        def tracer(frame, event, arg):
+            return local if frame.f_code is code else None
+
+        with warnings.catch_warnings():
+            warnings.simplefilter("ignore")
+            sys.settrace(tracer)
+            try:
+                lab.extract()
+            finally:
+                sys.settrace(None)
+        if "t2" in state:
+            state["t2"].join(5)
+        lab.log.clear()
+        lab.insert(2)
+        lab.extract()
+        after = list(lab.log)
+        lab.extract()
+        return {"log": after, "stale_cache": True, "reached": not state["armed"], "t2_done": state["t2_done"],
+                "want": f"{'mod' if has_mod else 'builtin'}2", "error": None}
+
     def oracle(self, case, real):
+        if isinstance(real, dict) and real.get("stale_cache"):
+            if not real["reached"] or not real["t2_done"]:
+                return "harness: the forced schedule was not reached"
+            if real["want"] not in real["log"]:
+                return (f"two overlapping extractions, a module removed between them, then module 2 arrives: the next extraction returned "
+                        f"without its glue having run (log {real['log']}): the recorded module count is that of the scan that finished "
+                        f"first, not of the one that ran last")
+            return None
         mods = {m[0]: m for m in case["mods"]}
         log = real.split() if isinstance(real, str) else real.get("log", [])
         if isinstance(real, dict) and real.get("late_register"):
